@@ -1377,6 +1377,8 @@ class TOTP:
         if label:
             # NOTE: KeyURI spec says there may be leading spaces
             label = label.strip() or None
+        if not label:
+            raise cls._uri_parse_error("missing label")
 
         # parse query params
         params = dict(label=label)
@@ -1525,12 +1527,14 @@ class TOTP:
 
     def _to_uri_params(self):
         """return list of (key, param) entries for URI"""
+        # NOTE: see to_dict() for why the class defaults are consulted as well.
         args = [("secret", self.base32_key)]
-        if self.alg != "sha1":
+        cls = type(self)
+        if self.alg != "sha1" or cls.alg != "sha1":
             args.append(("algorithm", self.alg.upper()))
-        if self.digits != 6:
+        if self.digits != 6 or cls.digits != 6:
             args.append(("digits", str(self.digits)))
-        if self.period != 30:
+        if self.period != 30 or cls.period != 30:
             args.append(("period", str(self.period)))
         return args
 
@@ -1615,7 +1619,8 @@ class TOTP:
             # encrypted key, so if to_json() is called again, the encrypted
             # key can be re-used.
             # XXX: wallet is known at this point, could decrypt key here.
-            assert "key" not in kwds  # shouldn't be present w/ enckey
+            if "key" in kwds:  # shouldn't be present w/ enckey
+                raise cls._dict_parse_error("both 'enckey' and 'key' present")
             kwds.update(key=kwds.pop("enckey"), format="encrypted")
         elif "key" not in kwds:
             raise cls._dict_parse_error("missing 'enckey' / 'key'")
@@ -1648,12 +1653,15 @@ class TOTP:
         """
         # NOTE: 'type' may seem redundant, but using it so code can try to
         #       detect that this *is* a TOTP json string / dict.
+        # NOTE: a value equal to the format's default is only elided if it is the default of this
+        #       class as well -- else loading through the same (customized) class would change it.
         state = dict(v=self.json_version, type="totp")
-        if self.alg != "sha1":
+        cls = type(self)
+        if self.alg != "sha1" or cls.alg != "sha1":
             state["alg"] = self.alg
-        if self.digits != 6:
+        if self.digits != 6 or cls.digits != 6:
             state["digits"] = self.digits
-        if self.period != 30:
+        if self.period != 30 or cls.period != 30:
             state["period"] = self.period
         # XXX: should we include label as part of json format?
         if self.label:
